@@ -17,7 +17,7 @@ Import ListNotations.
 From BB Require Import BN Brute SpaceFacts TrapFacts PercolateFacts AttractorFacts Diagram Invariants Checks Filter
   Strict PetriNet Control Meta FilterFacts PetriNetFacts TrappistFacts DiagramStruct DiagramSem1 DiagramCache
   DiagramDepth DiagramComplete Termination ControlFacts MetaFacts Candidates StrictFacts MinExpandFacts CandidatesFacts SymbolicTest SymbolicTestFacts Signed ReductionFacts ControlFacts2 Main Blocks BlocksFacts ObsFacts OwnerFacts CandidatesTerm
-  PartialOwner BlockMath BlockComplete ASeeds ASeedsFacts LogChecks SkipRule SkipRuleFacts Names NamesFacts Perm PermFacts SCC SCCFacts SCCStruct ControlFacts3 SCCTerm FilterSym Main2 StrategyFacts ControlFacts4.
+  PartialOwner BlockMath BlockComplete ASeeds ASeedsFacts LogChecks SkipRule SkipRuleFacts Names NamesFacts Perm PermFacts SCC SCCFacts SCCStruct ControlFacts3 SCCTerm FilterSym Main2 StrategyFacts ControlFacts4 PyLib PySrc PySrcFacts.
 
 Theorem C06_override_forces : forall (N : net) (S : space) (d m : list (option bool)), trap_space N S -> length d = nvars N -> length m = nvars N -> compatible d S -> subspace (percolate_b N (merge d S)) m = true -> forced (override N d) S m.
 Proof. exact override_forces. Qed.
@@ -58,6 +58,14 @@ Proof. exact succession_control_ff_sound. Qed.
 Theorem C06_skip_feedforward_subset : forall (N : net) (d : sd) (target : space) (all_strategy : bool) (maxd : option nat) (forbidden : list nat) (b : bool) (x : list space * list (list space) * bool), In x (succession_control_ff N d target all_strategy maxd forbidden b) -> In x (succession_control N d target all_strategy maxd forbidden).
 Proof. exact succession_control_ff_incl. Qed.
 
+(* translator tie: the function generated from the CURRENT source of space_utils.is_subspace equals the model's subspace *)
+Theorem C06_source_is_subspace : forall (n : nat) (x y : pdict), wf_dict n x -> wf_dict n y -> py_is_subspace x y = Some (subspace (to_space n x) (to_space n y)).
+Proof. exact py_is_subspace_spec. Qed.
+
+(* ... and space_utils.intersect the model's intersect *)
+Theorem C06_source_intersect : forall (n : nat) (x y : pdict), wf_dict n x -> wf_dict n y -> match py_intersect x y with | Some (Some r) => wf_dict n r /\ intersect (to_space n x) (to_space n y) = Some (to_space n r) | Some None => intersect (to_space n x) (to_space n y) = None | None => False end.
+Proof. exact py_intersect_spec. Qed.
+
 Print Assumptions C06_override_forces.
 Print Assumptions C06_override_forces_code.
 Print Assumptions C06_find_drivers_force.
@@ -69,3 +77,5 @@ Print Assumptions C06_target_expansion_prepares.
 Print Assumptions C06_chain_follows_path.
 Print Assumptions C06_skip_feedforward_sound.
 Print Assumptions C06_skip_feedforward_subset.
+Print Assumptions C06_source_is_subspace.
+Print Assumptions C06_source_intersect.
